@@ -30,8 +30,8 @@ CHECKS = {
     "C10": ("DESIGN.md section 3/C10",
             "type-checked key tables recovered from MIR; merge/feature-gate rules on the syntax tree; path counting",
             "Decides: ts and serde arms of a shared key call the same value parser and set the same field (R1); documented serde keys are present "
-            "(R2); ts wins in every merge and from_attrs passes the ts value as receiver (R3); serde parsing is feature-gated (R4, thorough: dead "
-            "under --no-default-features); the unknown-key fallback always skips and never errors, and keys are read with parse_any (R5); no arm "
+            "(R2); ts wins in every merge and from_attrs passes the ts value as receiver (R3); serde parsing is feature-gated (R4: dead "
+            "in the derive compiled with --no-default-features, constant conditions folded); the unknown-key fallback always skips and never errors, and keys are read with parse_any (R5); no arm "
             "consumes `=` twice (R6); value forms serde accepts are accepted or recovered per key (R7; repaired by e6989d5); every "
             "token-skipping loop tests the token it skips, before advancing (R8); no unjustified panic on the serde path (R9); neither parsed value is altered before merge (R3); the separator is never followed by an untested key read, so a trailing comma is accepted (R11; repaired by d7bba3a); container from_attrs merges serde on every Ok path (R3); all serde lists are folded (R12); delimited groups are read to the end (R13); written values are recorded as written (R14) and not rewritten after the merge (R15). Equality of bindings for all types under the two "
             "spellings is NOT decided beyond these table/merge facts."),
@@ -100,13 +100,13 @@ CHECKS.update({
             "table extraction from macro invocations and impl templates; call-set comparison on MIR",
             "Decides: each of the ~80 built-in impl rows has the class serde's data model assigns (number/bigint/string/boolean/null/transparent/"
             "nullable/array/tuple/keyed-object/range/result), name() and inline() agree, arrays repeat exactly 0..N with the Vec fallback above the "
-            "limit, tuples cover arity 10 (R1); Named == Visited and Inlined <= Forwarded for every generic impl (R2). Third-party crate types are "
+            "limit, tuples cover arity 10 (R1); Named == Visited and Inlined <= Forwarded for every generic impl (R2); every impl whose name() only forwards to another type has its own inline()/inline_flattened() forwarding to the same type, a shadow also every method its target overrides (R7). Third-party crate types are "
             "reported unclassified; value-level agreement is NOT decided."),
     "C14": ("DESIGN.md section 3/C14",
-            "routing rules and a finite decision evaluator over the generator's syntax tree",
+            "routing rules on quote! templates recovered from MIR, read with the attribute tests that dominate them",
             "Decides: a field's raw type is read only through type_as (R1); every representation arm of format_variant uses the payload resolved "
             "from the variant attributes (R2); per (type, flatten, inline) cell the three field formatters emit literal/inline_flattened/inline/"
-            "name and record none/append_from/append_from/push on the same variable (R3); decl_concrete shape and placeholder scope (R4); "
+            "name and record none/append_from/append_from/push on the same variable (R3: on MIR, following an enum that carries the choice); decl_concrete shape and placeholder scope (R4); "
             "reference/dependency pairing (R5); enum inline_flattened is always parenthesised (R6); named() composition table (R7); `_` in `as` types substituted at every depth (R8); object-merge anchoring and paren stripping (R9, R10 = C04.R6/R7); wrapper/shadow delegation of inline_flattened (R11 = C12.R1); operands of ` & ` are atomic (R12 = C02.R9; repaired by 148e3d3); enum_def override order (R15). Denotational equality of bindings is NOT decided."),
     "C15": ("DESIGN.md section 3/C15",
             "field-level information-flow (role classification of every read of a docs field), sanitizer-on-path rule on MIR, dominance ordering",
